@@ -6,5 +6,20 @@ def fill(add, pending):
         'Trusted: the reference model models/orderedmap.py as the reading of the docstring; string keys; two readings accepted for numeric-index relocation.',
         'deterministic simulation: seeded history search vs reference model with injected validator refusals',
         'DESIGN.md section 3 C16')
-    for pid in ('C09', 'C10', 'C13', 'C14', 'C15'):
+    add('C14', 'hist', 'exploration',
+        'Seeded search over histories of every Grid row operation (append/insert/extend/+=/setitem/del index+slice/pop/remove/'
+        'reverse/clear, refused non-dict rows, out-of-range indexes) on a pool of root, sliced and filtered grids, in lock-step '
+        'with plain lists of the same row objects; every live grid is observed in full (len, identity order, every index incl. '
+        'negative, seeded slices with version/metadata/columns, in/index/count, exception parity) after every operation.',
+        'Trusted: Python list as the reference; sampling, not enumeration, of histories.',
+        'deterministic simulation: seeded history search vs list model with injected refusals',
+        'DESIGN.md section 3 C14')
+    add('C15', 'hist', 'exploration',
+        'Same machine; every id value ever used (raw and str form, str/int/Ref kinds, duplicates, in-place edits + reindex) is '
+        'looked up through grid[key] and grid.get on every live grid and compared with a linear scan of the model list; clauses '
+        'stale / wrong / missing / crash reported separately; unique-str, duplicates and mixed-kinds run classes.',
+        'Trusted: linear-scan model; any current row with the id is an acceptable answer when ids are duplicated.',
+        'deterministic simulation: seeded history search vs scan-based lookup model',
+        'DESIGN.md section 3 C15')
+    for pid in ('C09', 'C10', 'C13'):
         pending[pid] = 'designed (DESIGN.md section 3) but its check is not built yet in this commit; not claimed until it is'
